@@ -140,4 +140,14 @@ CLAIMED["C13"] = {
     "note": COMMON_NOTE + "CPython set iteration order is an explicit parameter; object identity is probed on the implementation only.",
     "technique": T,
 }
+CLAIMED["C07"] = {
+    "text": "For subgroup trees of ANY depth (induction on the tree / fuel = nesting depth): C07_fuel (the itertools.count() rounds terminate after depth rounds), "
+            "C07_key (last key given, else the declared default), C07_key_rejected_partial (unknown / missing required key => exit 2), "
+            "C07_value_namespace_partial (value = chosen entry's defaults, partial overrides or frozen instance values, overridden by the passed options; "
+            "`subgroups` reports the chosen keys), C07_no_crash (unconditional since the fix: commit), C07_foreign_rejected. Union-of-dataclass fields: "
+            "C07_cmd_*_partial (sub-command name selects the type); argparse's own segmentation is covered by correspondence only. Abbreviated subgroup "
+            "options are refuted with a witness (known finding).",
+    "note": COMMON_NOTE + "argparse prefix matching is set aside (the spec is silent on foreign options that abbreviate a registered one).",
+    "technique": T,
+}
 NOT_CLAIMED = {}
